@@ -4,9 +4,13 @@ PROVED (kernel-checked): the recovery function — Recover.recover_replays_all (
 persisted commit index = the state machine after the committed prefix), Recover.rep_save / rep_snapshot / applied_is_image (the
 representation is kept by the Ready loop's storage operations: append, raise commit, snapshot the applied state, compact), and
 Recover.acked_survives (an entry at or below the persisted commit index contributes to the recovered state exactly as when it was
-first applied).  HYPOTHESES of those theorems checked on every run: fact F4 (the Ready arm persists before it sends, publishes and
-acknowledges — extracted from raftexample/raft.go) and `restore . serialize = id` for the keyspace snapshot (property-tested in the
-repository: memdb/snapshot_test.go; exercised here by the snapshot scenarios).
+first applied); and `restore . serialize = id` for the keyspace snapshot: Snap.decode_encode (LoadSnapshot of GetSnapshot's bytes
+succeeds and yields the canonical presentation of the keyspace), Snap.canon_equiv / snapshot_roundtrip_observable (every key holds the
+same value and deadline afterwards), Snap.encode_deterministic (same keyspace => same bytes), Snap.encode_injective — theorems about
+lean/RedisGoModel/Cluster/Snapshot.lean, which is TIED byte for byte to memdb/snapshot.go on every run (suite "snapshot": exec-engine
+lines G / L / LB, vlib/snapgen.py: GetSnapshot bytes = Snap.encode, LoadSnapshot = Snap.decode incl. the shape of rebuilt sorted-set
+trees, mutated snapshots).  HYPOTHESIS of the recovery theorems checked on every run: fact F4 (the Ready arm persists before it sends,
+publishes and acknowledges — extracted from raftexample/raft.go).
 
 NOT PROVED — EXPLORED by fault enumeration on real processes: workloads that cross the snapshot threshold (VERIF_SNAPCOUNT=5/20/50),
 SIGKILL of any subset of nodes at random instants including all at once, restart in random order from the on-disk state, then a read
@@ -14,7 +18,7 @@ of every key through EVERY node: the linearizability check with those final read
 counter, SADD-only set: every acknowledged operation must be reflected on every node) are the C08 verdict.  The minimal scenarios of
 the three repaired defects (list in the keyspace at the snapshot threshold; snapshot + full restart; follower caught up by MsgSnap)
 run on every check and must pass."""
-from .. import core, clustersuite
+from .. import core, clustersuite, snapgen
 
 LEVEL = "proof"
 KNOWN_HERE = ["member-url-lost-after-compaction"]
@@ -27,6 +31,8 @@ def run(R, ctx):
     if binary is None:
         R.violation("harness-build", dict(kind="tie-broken", summary="harness does not build: " + (err or "")[-800:]), found_input=False)
         return
+    # correspondence of the snapshot model (Snap.encode / Snap.decode) with memdb/snapshot.go, before the cluster scenarios
+    snapgen.run_snapshot_suite(R, ctx, binary)
     f4 = clustersuite.fact_f4(R, broken_is_violation=False)
     main = clustersuite.run_cluster(R, ctx, "C08", binary, known, KNOWN_HERE) or []
     if f4 is not None and not (f4["exact"] and f4["persist_first"]):
@@ -39,7 +45,11 @@ def run(R, ctx):
     if f4 is not None and f4["unchecked"]:
         R.violation("F4-write-error-ignored", dict(kind="tie-broken", summary="the Ready arm discards the result of " + ", ".join(f4["unchecked"]) +
                                                    ": a failed write would still be acknowledged"), found_input=False)
-    R.rule = ("cluster: a scenario is non-trivial when clients got acknowledgements AND at least one fault was injected; a repaired-defect "
+    R.rule = ("snapshot: programs of every command family over all six value types (binary/empty keys and members, +-inf scores, deadlines) with "
+              "G (GetSnapshot bytes = Snap.encode, byte for byte), L (load into a fresh MemDb = Snap.decode . Snap.encode, full dump incl. rebuilt tree "
+              "shapes) and LB lines (mutated snapshots: accept/refuse and resulting keyspace vs the strict model decoder); a G/L line is non-trivial "
+              "when the keyspace is not empty, an LB line when the model decoder accepts. "
+              "cluster: a scenario is non-trivial when clients got acknowledgements AND at least one fault was injected; a repaired-defect "
               "scenario counts when it passes; evaluations = client commands issued (acknowledged + unknown outcome).")
     if ctx.broken and not R.violations:
         R.violation("proof-broken", dict(kind="proof-broken", broken=ctx.broken,
